@@ -27,9 +27,16 @@
 (* leaves known through a base class only, with keyword extra arguments.   *)
 (* FbMode "mro-dropkw" is the negative control                            *)
 (* (C05_OptGen_Buggy_FallbackDropsKw): Explained must be refuted.          *)
+(* Round 7: ClassSel "nil": memoizing classes whose handlers return values  *)
+(* that look like nothing (a CachedWalkMapper: None; combine mappers: None, *)
+(* 0, False, ()), under all 32 option combinations, on a pool with repeated *)
+(* subtrees and second calls.  InlineHit is the hit test of the inlined     *)
+(* look-aside; "notnone" / "truthy" are the negative controls               *)
+(* C05_OptGen_Buggy_InlineHitNotNone / _InlineHitTruthy: Explained must be  *)
+(* refuted (a key is computed twice with inline_rec + inline_cache).        *)
 (***************************************************************************)
 EXTENDS C05_Optimizer, Json
-CONSTANTS OptPoolSel, OptArgSel, MaxLen, Steps, ClassSel, FirstSel, CollectMode, FbMode
+CONSTANTS OptPoolSel, OptArgSel, MaxLen, Steps, ClassSel, FirstSel, CollectMode, FbMode, InlineHit
 VARIABLES cfg, hist, tab, ms, v, fa
 
 OptClasses == <<
@@ -45,12 +52,19 @@ OptClasses == <<
     [name |-> "OptOvCollector", m |-> "bcoll", args |-> FALSE, stock |-> FALSE, base |-> "collector",
      ov |-> << "map_constant", "map_sum", "map_quotient", "map_list" >>],
     [name |-> "OptOvCount", m |-> "count", args |-> FALSE, stock |-> FALSE, base |-> "combine",
-     ov |-> << "map_sum", "map_left_shift", "map_bitwise_not" >>]
+     ov |-> << "map_sum", "map_left_shift", "map_bitwise_not" >>],
+    \* round 7: handlers return None / falsy values; own two-component key, no extra arguments
+    [name |-> "OptWalkKey",  m |-> "walk", args |-> FALSE, stock |-> FALSE],
+    [name |-> "OptNilNone",  m |-> "nil", val |-> "none",  args |-> FALSE, stock |-> FALSE],
+    [name |-> "OptNilZero",  m |-> "nil", val |-> "zero",  args |-> FALSE, stock |-> FALSE],
+    [name |-> "OptNilFalse", m |-> "nil", val |-> "false", args |-> FALSE, stock |-> FALSE],
+    [name |-> "OptNilEmpty", m |-> "nil", val |-> "empty", args |-> FALSE, stock |-> FALSE]
 >>
 Classes == CASE ClassSel = "all" -> { OptClasses[i] : i \in 1..5 }
              [] ClassSel = "alias" -> { OptClasses[6], OptClasses[7], OptClasses[8] }
              \* round 4: the classes whose handlers use the extra arguments
              [] ClassSel = "args" -> { OptClasses[1], OptClasses[4] }
+             [] ClassSel = "nil" -> { OptClasses[i] : i \in 9..13 }
              [] OTHER -> { OptClasses[1], OptClasses[2], OptClasses[3] }
 
 \* a class whose handlers use the extra arguments cannot have them dropped
@@ -97,7 +111,7 @@ OptArgs == CASE OptArgSel = "two"  -> << NoArgs, Args(<< IntV(1) >>, << >>) >>
              [] OptArgSel = "core" -> << NoArgs, Args(<< IntV(1) >>, << >>), Args(<< IntV(2) >>, << >>),
                                          Args(<< >>, << [name |-> "k", v |-> IntV(1)] >>) >>
 
-Sem == SemOfModes(cfg, CollectMode, FbMode)
+Sem == SemOfHit(cfg, CollectMode, FbMode, InlineHit)
 TestCls == cfg[Len(cfg)].cls
 ArgOk(q) == IF TestCls.args THEN SigFits(Sem, OptArgs[q]) ELSE q = 1
 
